@@ -224,3 +224,27 @@ def check_sentinels(prog, rep, m, names, rule='M7-sentinel'):
                 'and would be replaced like "absent": %s' % bad, trivial=not numeric)
 
 
+
+
+def flat_alias_of_like(f):
+    """[(store node, alias name, base name, alias assignment, allocation or None)] for stores made through a flattened alias
+    (`x = out.ravel()` / `out.reshape(-1)` / `out.flatten()`) of an array that follows the input's memory layout (allocated
+    by a `*_like` constructor) or that is always a copy (`flatten`).  `ravel` / `reshape(-1)` give a view only for a
+    C-contiguous array: for a column-major input the alias is a copy and every store through it is lost."""
+    import ast as _ast
+    from .program import norm as _norm
+    flat = {}
+    for n in f.own_nodes():
+        if isinstance(n, _ast.Assign) and isinstance(n.targets[0], _ast.Name) and isinstance(n.value, _ast.Call) and \
+                isinstance(n.value.func, _ast.Attribute) and n.value.func.attr in ('ravel', 'reshape', 'flatten') and \
+                isinstance(n.value.func.value, _ast.Name):
+            flat[n.targets[0].id] = (n.value.func.value.id, n)
+    out = []
+    for x in f.own_nodes():
+        if isinstance(x, _ast.Subscript) and isinstance(x.ctx, _ast.Store) and isinstance(x.value, _ast.Name) and x.value.id in flat:
+            base, node = flat[x.value.id]
+            allocs = [v for v in f.local_assigns().get(base, []) if isinstance(v, _ast.Call)]
+            like = [v for v in allocs if _norm(v.func).split('.')[-1].endswith('_like')]
+            if like or node.value.func.attr == 'flatten':
+                out.append((x, x.value.id, base, node, like[0] if like else None))
+    return out
